@@ -41,6 +41,8 @@ Part "lifecycle_and_names" (ENUM)  lifecycle: an older class object with the sam
   dropped and collected somewhere in every history of <= 4 ops over render(document|fragment) / drop_old / clear; every URL
   announced since the last clear must be served after every step.  names: pairs of live classes of one module with related
   names (equal length, differing only in non-ASCII letters / case / a digit) x both render orders x document / fragment.
+  capacity: ONE fragment / document render of 170 components with js + css (340 scripts, more than Django's default cache
+  size) with the built-in cache - every announced URL must be served.
 Part "shapes" (ENUM)  all classes with js, css in {None, "", blank, code, padded code} x
   document/fragment x first/second render: same oracle.
 Part "requests" (ENUM)  full product hash x kind x input-hash x method in two cache states:
@@ -832,11 +834,44 @@ def _names_case(pair, order, t):
     return tr, None
 
 
+CAPACITY_N = 170  # components with js + css: 340 scripts in ONE render - more than any default cache size (Django's is 300)
+
+
+def _capacity_case(t):
+    """one render announces the scripts of CAPACITY_N components: every announced URL must be served (built-in cache)"""
+    from django.utils.safestring import mark_safe
+
+    from django_components import Component
+    from django_components.dependencies import render_dependencies
+
+    classes = {}
+    for i in range(CAPACITY_N):
+        classes[f"G{i}"] = type(f"C19Cap{i}", (Component,), {"__module__": "verif_c19_cap", "template": f"<i>{i}</i>",
+                                                          "js": f"cap_{i}()", "css": f".cap_{i} {{}}"})
+    media_cache().clear()
+    html = mark_safe("".join(c.render(render_dependencies=False) for c in classes.values()))
+    out = render_dependencies(DOC % html if t == "document" else html, t)
+    urls = sorted({u for _, u in extract_urls(out)})
+    bad = [p for p in (check_served(u, classes) for u in urls) if p]
+    return len(urls), (f"{len(bad)} of the {len(urls)} URLs announced by one {t} render of {CAPACITY_N} components are not served; first: {bad[0]}" if bad else None)
+
+
 def _life_task(_):
     env()
     _cleanup()
     boot.set_components_setting(cache=None)
     failures, n, tr, nontriv = [], 0, 0, 0
+    for t in ("fragment", "document"):
+        n += 1
+        nontriv += 1
+        nurls, bad = _capacity_case(t)
+        tr += nurls
+        if nurls < 2 * CAPACITY_N:
+            raise par.HarnessError(f"capacity case ({t}) announced only {nurls} URLs")
+        if bad:
+            failures.append((f"capacity/{t}|dead-url", bad, {"part": "capacity", "type": t}))
+    _cleanup()
+    boot.set_components_setting(cache=None)
     for L in (1, 2, 3, 4):
         for seq_ in product(LIFE_OPS, repeat=L):
             if sum(1 for o in seq_ if o[0] == "drop_old") > 1 or not any(o[0] == "render" for o in seq_):
@@ -1167,6 +1202,14 @@ def replay(ctx, case):
                 break
         _cleanup()
         return ok
+    if part == "capacity":
+        env()
+        _cleanup()
+        boot.set_components_setting(cache=None)
+        nurls, bad = _capacity_case(case["type"])
+        print(nurls, "URLs announced ->", bad or "all served")
+        _cleanup()
+        return bad is None
     if part in ("lifecycle", "names"):
         env()
         _cleanup()
